@@ -379,14 +379,15 @@ static double moment1d(int kind, double alpha, double beta, int m){
             if (m % 2 == 1) return 0.0;
             return std::exp(std::lgamma(0.5 * (m + 1)) + std::lgamma(alpha + 1.0) - std::lgamma(0.5 * (m + 1) + alpha + 1.0));
         }
-        // 2^(a+b+1) sum_k C(m,k) 2^k (-1)^(m-k) B(b+k+1, a+1)
-        double sum = 0.0;
-        for(int k=0; k<=m; k++){
-            double c = std::exp(std::lgamma(m + 1.0) - std::lgamma(k + 1.0) - std::lgamma(m - k + 1.0));
-            double B = std::exp(std::lgamma(beta + k + 1.0) + std::lgamma(alpha + 1.0) - std::lgamma(alpha + beta + k + 2.0));
-            sum += c * std::pow(2.0, k) * (((m - k) % 2 == 0) ? 1.0 : -1.0) * B;
+        // three-term recurrence from the vanishing integral of d/dx[(1-x^2) w(x) x^m]:
+        //   mu_{m+1} = ((beta - alpha) mu_m + m mu_{m-1}) / (m + alpha + beta + 2),  mu_0 = 2^(a+b+1) B(a+1, b+1)
+        double mu_prev = 0.0;
+        double mu = std::pow(2.0, alpha + beta + 1.0) * std::exp(std::lgamma(alpha + 1.0) + std::lgamma(beta + 1.0) - std::lgamma(alpha + beta + 2.0));
+        for(int k=0; k<m; k++){
+            double next = ((beta - alpha) * mu + (double) k * mu_prev) / ((double) k + alpha + beta + 2.0);
+            mu_prev = mu; mu = next;
         }
-        return std::pow(2.0, alpha + beta + 1.0) * sum;
+        return mu;
     }
     if (kind == 2) return std::tgamma(m + alpha + 1.0);
     if (kind == 3) return (m % 2 == 1) ? 0.0 : std::tgamma(0.5 * (m + alpha + 1.0));
